@@ -18,6 +18,7 @@ func init() { runners["C10"] = runC10; runners["C11"] = runC11 }
 var treeMu sync.Mutex
 var treeCases [][2]interface{}
 
+var voidOpen = regexp.MustCompile(`<(hr|br|img|input)\b[^<>]*>`)
 var voidXhtml = regexp.MustCompile(`<(hr|br|img|input)\b([^<>]*?) />`)
 
 // the three rewrite relations of C10, each checked on the implementation's outputs
@@ -27,9 +28,14 @@ func xhtmlRel(base, x []byte) string {
 	if !bytes.Equal(back, base) {
 		return fmt.Sprintf("XHTML output differs beyond ' />' on void elements: %.200q vs %.200q", x, base)
 	}
-	// and every void element must have been rewritten
-	if n := len(regexp.MustCompile(`<(hr|br|img|input)\b[^<>]*[^/]>`).FindAll(x, -1)); n > 0 && !bytes.Contains(base, []byte("raw")) {
-		_ = n
+	// and every void element must have been rewritten (safe-mode outputs only reach this
+	// function: every tag in them was written by a renderer, attribute values have '>' escaped)
+	if m := voidOpen.FindAll(x, -1); len(m) > 0 {
+		for _, t := range m {
+			if !bytes.HasSuffix(t, []byte(" />")) {
+				return fmt.Sprintf("XHTML output has a void element that is not closed with ' />': %.80q in %.200q", t, x)
+			}
+		}
 	}
 	return ""
 }
